@@ -914,6 +914,42 @@ def cli_section(ctx):
                           {"kind": "oracle", "oracle": "CLI: dependant of an output-less dependency gets a new key when that dependency changes", "algo": algo,
                            "bundle_txt": got, "expected": "two\n", "new_cache_keys_in_second_build": new_keys, "expected_new_keys": 2, "log": log2[-600:]},
                           signature="collision:output-less-dependency-changed")
+    # --- two targets of one package whose input lists coincide once joined with ",": each key follows its own files only ---------------
+    for algo in ("xxh3", "sha256"):
+        base = ctx.scratch("commalists_" + algo)
+        ws = os.path.join(base, "ws")
+        os.makedirs(os.path.join(ws, "pkg"), exist_ok=True)
+        open(os.path.join(ws, "grog.toml"), "w").write("num_workers = 1\n")
+        open(os.path.join(ws, "pkg", "BUILD.json"), "w").write(_json.dumps({"targets": [
+            {"name": "joined", "command": "cat 'eu,totals.csv' > joined.out", "inputs": ["eu,totals.csv"], "outputs": ["joined.out"]},
+            {"name": "split", "command": "cat eu totals.csv > split.out", "inputs": ["eu", "totals.csv"], "outputs": ["split.out"]},
+            {"name": "other", "command": "cat eu > other.out", "inputs": ["eu"], "outputs": ["other.out"]}]}))
+        for fn, c in (("eu,totals.csv", "J1\n"), ("eu", "E1\n"), ("totals.csv", "T1\n")):
+            open(os.path.join(ws, "pkg", fn), "w").write(c)
+        prev, _ = _keys_after_build(grog, ws, os.path.join(base, "root"), algo)
+        runs += 1
+        if prev is None or prev[0] != 0:
+            ctx.notes.append("comma-lists scenario unusable: %s" % (prev,))
+            continue
+        for fn, c, exp_new, outs in (("eu", "E2\n", 2, {"split.out": "E2\nT1\n", "other.out": "E2\n", "joined.out": "J1\n"}),
+                                     ("eu,totals.csv", "J2\n", 1, {"split.out": "E2\nT1\n", "other.out": "E2\n", "joined.out": "J2\n"}),
+                                     ("totals.csv", "T2\n", 1, {"split.out": "E2\nT2\n", "other.out": "E2\n", "joined.out": "J2\n"})):
+            open(os.path.join(ws, "pkg", fn), "w").write(c)
+            cur, log2 = _keys_after_build(grog, ws, os.path.join(base, "root"), algo)
+            runs += 1
+            if cur is None or cur[0] != 0:
+                break
+            compared += 1
+            new_keys = len(set(cur[1]) - set(prev[1]))
+            got = {o: open(os.path.join(ws, "pkg", o)).read() for o in outs}
+            if new_keys != exp_new or got != outs:
+                ctx.violation("two targets of one package whose input lists coincide when joined with ',' ('eu,totals.csv' vs 'eu' + 'totals.csv'): after editing "
+                              "one file the wrong set of targets received a new key (a key follows another target's input contents) or a stale result was served",
+                              {"kind": "oracle", "oracle": "CLI: keys follow the target's own (input path, content) set; list elements containing the separator", "algo": algo,
+                               "edited": fn, "new_cache_keys": new_keys, "expected_new_keys": exp_new, "outputs": got, "expected_outputs": outs, "log": log2[-600:]},
+                              signature="collision:input-lists-joined-with-separator")
+                break
+            prev = cur
     ctx.coverage["cli_builds"] = runs
     ctx.coverage["cli_variants_compared"] = compared
     ctx.coverage["evaluations"] += runs
